@@ -128,7 +128,7 @@ func VerifC14_Edit() {
 	pick := func(n string, cur string) string {
 		return []string{types.DoNotModify, cur, "new-" + n}[verifChoice(n, 3)]
 	}
-	msg := &types.MsgEditNFT{Id: nfToken, DenomId: nfClass, Name: pick("name", "n"), URI: pick("uri", "uri"), UriHash: types.DoNotModify, Data: []string{types.DoNotModify, `{"k":"v"}`}[verifChoice("data", 2)], Sender: actor.String()}
+	msg := &types.MsgEditNFT{Id: nfToken, DenomId: nfClass, Name: pick("name", "n"), URI: pick("uri", "uri"), UriHash: []string{types.DoNotModify, "uh-2"}[verifChoice("uriHash", 2)], Data: []string{types.DoNotModify, `{"k":"v"}`}[verifChoice("data", 2)], Sender: actor.String()}
 	verifAssume(msg.ValidateBasic() == nil)
 	before, _ := e.k.GetNFT(e.ctx, nfClass, nfToken)
 	err, _ := e.verifDeliver(func() error { _, err := e.k.EditNFT(e.ctx, msg); return err })
@@ -137,20 +137,30 @@ func VerifC14_Edit() {
 	e.assertCounts()
 	if err != nil {
 		verifCover("refused")
-		verifAssert(after.GetName() == before.GetName() && after.GetURI() == before.GetURI() && after.GetData() == before.GetData(), "a refused edit changes nothing")
+		verifAssert(after.GetName() == before.GetName() && after.GetURI() == before.GetURI() && after.GetData() == before.GetData() && after.GetURIHash() == before.GetURIHash(), "a refused edit changes nothing")
+		verifAssert(!(who.owner && !e.updR), "the owner of a token in an unrestricted class can edit it")
 		return
 	}
 	verifCover("edited")
 	verifAssert(who.owner, "only the current owner can edit a token")
 	verifAssert(!e.updR, "tokens of an update-restricted class never change their metadata (edit)")
+	keep := func(old, req string) string {
+		if req == types.DoNotModify {
+			return old
+		}
+		return req
+	}
+	verifAssert(after.GetName() == keep(before.GetName(), msg.Name) && after.GetURI() == keep(before.GetURI(), msg.URI) && after.GetData() == keep(before.GetData(), msg.Data) && after.GetURIHash() == keep(before.GetURIHash(), msg.UriHash),
+		"an edit stores exactly the requested fields; the do-not-modify sentinel keeps a field")
 }
 
 func VerifC14_Transfer() {
 	verifExpect("transferred", "refused")
 	e := newNfEnv()
 	actor, who := e.actor("actor")
-	newName := []string{types.DoNotModify, "renamed"}[verifChoice("rename", 2)]
-	msg := &types.MsgTransferNFT{Id: nfToken, DenomId: nfClass, Name: newName, URI: types.DoNotModify, UriHash: types.DoNotModify, Data: types.DoNotModify, Sender: actor.String(), Recipient: e.stranger.String()}
+	pickT := func(n, v string) string { return []string{types.DoNotModify, v}[verifChoice(n, 2)] }
+	msg := &types.MsgTransferNFT{Id: nfToken, DenomId: nfClass, Name: pickT("rename", "renamed"), URI: pickT("newURI", "uri-2"), UriHash: pickT("newURIHash", "uh-2"), Data: pickT("newData", `{"k":"new"}`),
+		Sender: actor.String(), Recipient: e.stranger.String()}
 	verifAssume(msg.ValidateBasic() == nil)
 	before, _ := e.k.GetNFT(e.ctx, nfClass, nfToken)
 	err, _ := e.verifDeliver(func() error { _, err := e.k.TransferNFT(e.ctx, msg); return err })
@@ -159,13 +169,24 @@ func VerifC14_Transfer() {
 	e.assertCounts()
 	if err != nil {
 		verifCover("refused")
-		verifAssert(after.GetOwner().Equals(e.owner) && after.GetName() == before.GetName(), "a refused transfer changes nothing")
+		verifAssert(after.GetOwner().Equals(e.owner) && after.GetName() == before.GetName() && after.GetURI() == before.GetURI() && after.GetURIHash() == before.GetURIHash() && after.GetData() == before.GetData(), "a refused transfer changes nothing")
+		changes := msg.Name != types.DoNotModify || msg.URI != types.DoNotModify || msg.UriHash != types.DoNotModify || msg.Data != types.DoNotModify
+		verifAssert(!(who.owner && !(e.updR && changes)), "the owner's transfer is refused only for a change of metadata in an update-restricted class")
 		return
 	}
 	verifCover("transferred")
 	verifAssert(who.owner, "only the current owner can transfer a token")
 	verifAssert(after.GetOwner().Equals(e.stranger), "the token has exactly one owner: the recipient")
-	verifAssert(!e.updR || after.GetName() == before.GetName(), "tokens of an update-restricted class never change their metadata (transfer)")
+	same := after.GetName() == before.GetName() && after.GetURI() == before.GetURI() && after.GetURIHash() == before.GetURIHash() && after.GetData() == before.GetData()
+	verifAssert(!e.updR || same, "tokens of an update-restricted class never change their metadata (transfer)")
+	keepT := func(old, req string) string {
+		if req == types.DoNotModify {
+			return old
+		}
+		return req
+	}
+	verifAssert(after.GetName() == keepT(before.GetName(), msg.Name) && after.GetURI() == keepT(before.GetURI(), msg.URI) && after.GetURIHash() == keepT(before.GetURIHash(), msg.UriHash) && after.GetData() == keepT(before.GetData(), msg.Data),
+		"a transfer with changes stores exactly the requested fields; the do-not-modify sentinel keeps a field")
 }
 
 func VerifC14_Burn() {
